@@ -54,7 +54,7 @@ class Engine(BaseEngine):
         g = HistGen(sub, self.weights, sub.choice([0, 2, 4])).run()
         setup = [g.render_op(op) for op in g.ops]
         nthreads = sub.choice([2, 2, 3, 4]) if not free else sub.choice([4, 8, 16])
-        shared = g.new_event(kind=sub.choice([1, 1, 10000, 30000]))
+        shared = g.new_event(kind=sub.choice([1, 1, 10000, 30000, 20001]))
         shared["content"] = b"shared"
         pool = [shared]
         rep = g.new_event(kind=10000, pk=AUTHORS[1], created=500, tags=[])
@@ -67,6 +67,18 @@ class Engine(BaseEngine):
         foreign_del = g.new_event(kind=5, pk=AUTHORS[3], created=400,
                                   tags=[[b"e", own["id"].hex().encode()], [b"e", victim["id"].hex().encode()]])
         race = sub.random() < 0.35
+        # simultaneous submissions of an event the store must REFUSE (an older version of a held address, or an id the
+        # setup deleted): every submitter must get the refusal a sequential store gives, none of them "duplicate"
+        twin = None
+        if sub.random() < 0.3:
+            if sub.random() < 0.6:
+                setup.append("store " + C.t_event(rep2))
+                twin = rep
+            else:
+                gone = g.new_event(kind=1, pk=AUTHORS[0], created=250, tags=[])
+                gone["content"] = b"gone"
+                setup.append("store " + C.t_event(g.new_event(kind=5, pk=AUTHORS[0], created=260, tags=[[b"e", gone["id"].hex().encode()]])))
+                twin = gone
         progs = []
         for t in range(nthreads):
             ops = []
@@ -85,6 +97,8 @@ class Engine(BaseEngine):
                     ff = {"ids": [], "authors": [], "kinds": [], "tags": [], "since": None, "until": None, "limit": None}
                     ff.update(f)
                     ops.append("query %s L0 n:1 n:0 n:0 %s" % (C.t_filter(ff), C.tn(g.now)))
+            if twin is not None and t < 3:
+                ops.insert(sub.randrange(len(ops) + 1), "store " + C.t_event(twin))
             if race and t == 0:
                 ops.insert(sub.randrange(len(ops) + 1), "store " + C.t_event(victim))
             if race and t == 1:
@@ -185,8 +199,11 @@ class Engine(BaseEngine):
         # before committing reads the state under the lock it acquired after store:before-txn;
         # a query's snapshot (read_txn) is taken right after op:begin
         lin = {}
+        begun = {}
         for gi, tid, k, name in pts:
             key = (tid, k)
+            if name == "op:begin":
+                begun[key] = gi
             op = meta["progs"][tid][k].split(" ", 1)[0]
             if op == "store":
                 # these occur in this order within one store: the last one present wins (a store that
@@ -199,6 +216,10 @@ class Engine(BaseEngine):
             else:
                 if name == "op:begin":
                     lin[key] = gi
+        # an operation that returned without reaching any of its points (no code path of the unchanged tree does)
+        # still has to be answered like some sequential execution: it is placed where it began
+        for key, gi in begun.items():
+            lin.setdefault(key, gi)
         return [k for k, _ in sorted(lin.items(), key=lambda kv: kv[1])]
 
     def judge_case(self, gcls, meta, out, lin, mo):
